@@ -197,3 +197,8 @@ impl Uiua {
         Ok(())
     }
 }
+
+/// src/run_prim.rs `get_ops`: the operand list must have exactly N entries
+pub fn get_ops<const N: usize>(ops: Ops, env: &Uiua) -> UiuaResult<[SigNode; N]> {
+    ops.try_into().map_err(|_| env.error(()))
+}
